@@ -23,8 +23,9 @@
    change the state.  A write through the facade on an `initializing` ledger (single requests, elements of a non-atomic
    bulk) runs in a transaction that first flips the state to `in-use` and, when the flip happened, sets both sequences to
    max(id) (setval is not transactional; setval(NULL) is a no-op); rollback (failure, dry run) undoes the flip.
-   ATOMIC bulk: Bulker.Run calls ctrl.BeginTX, which the facade inherits from the wrapped controller: the elements run
-   on the inner controller, no flip, no resync (suspect S-11). *)
+   ATOMIC bulk: Bulker.Run calls ctrl.BeginTX.  The facade used to inherit it from the wrapped controller (no flip, no
+   resync: S-11, [w_atomic_unrepaired]); since fixes/01-facade-begintx it overrides it and runs the handleState protocol
+   inside the transaction of the bulk ([w_atomic]). *)
 From Coq Require Import List ZArith String Bool Ascii.
 From LV Require Import Base.Util Base.Json Ledger.Types Ledger.Core Ledger.Bulk Ledger.HashChain.
 Import ListNotations.
@@ -253,7 +254,7 @@ Section Hashed.
   Definition w_bulk (f : features) (now : Z) (b : istate) (os : list op) : istate * list bres :=
     run_bulk (w_elem f now) bres_ok BCancelled (fun b0 _ => b0) false false b os.
 
-  (* ATOMIC bulk: the inner controller inside one SQL transaction; no state flip, no resync.  An element that draws an id
+  (* ATOMIC bulk: the elements run on the inner controller inside one SQL transaction.  An element that draws an id
      which is already stored hits the primary key: InsertTransaction dereferences the nil tx.ID (transactions_ledger), or
      InsertLog swallows the violation and runLog dereferences the nil log.ID (logs_ledger) -- the pond worker recovers the
      panic, NO result is sent for the element, hasError stays false and the SQL transaction is aborted: every later
@@ -291,11 +292,24 @@ Section Hashed.
     end.
 
   Inductive aout := AResults (rs : list ares) | ACommitFailed.   (* ACommitFailed: Run returns "commit unexpectedly resulted in rollback" *)
-  Definition w_atomic (f : features) (now : Z) (b : istate) (os : list op) : istate * aout :=
+
+  (* BEFORE the repair fixes/01-facade-begintx (kept for the record and for the witnesses of the defect): the facade
+     inherited BeginTX, so the bulk ran on the inner controller: no lock, no state flip, no sequence resync *)
+  Definition w_atomic_unrepaired (f : features) (now : Z) (b : istate) (os : list op) : istate * aout :=
     let '(s', rs, aborted, err) := atomic_run f now (i_s b) false false os in
     if err || aborted then
       ({| i_s := only_sequences (i_s b) s'; i_tab := i_tab b; i_l := i_l b |}, if err then AResults rs else ACommitFailed)
     else ({| i_s := s'; i_tab := tab_after f (i_tab b) (i_s b) s'; i_l := i_l b |}, AResults rs).
+
+  (* controllerFacade.BeginTX (since the repair): on a ledger that is still initializing the transaction of the bulk first
+     takes the ledger lock, flips the state and resynchronises the sequences (markInUse), exactly as handleState does for a
+     single write; the flip commits or rolls back with the bulk, setval is not transactional *)
+  Definition w_atomic (f : features) (now : Z) (b : istate) (os : list op) : istate * aout :=
+    let s0 := match i_l b with Initializing => resync (i_s b) | InUse => i_s b end in
+    let '(s', rs, aborted, err) := atomic_run f now s0 false false os in
+    if err || aborted then
+      ({| i_s := only_sequences (i_s b) s'; i_tab := i_tab b; i_l := i_l b |}, if err then AResults rs else ACommitFailed)
+    else ({| i_s := s'; i_tab := tab_after f (i_tab b) s0 s'; i_l := InUse |}, AResults rs).
 
   (* the source ledger: a history run from the empty ledger, with the hash column the trigger maintained *)
   Definition source (f : features) (h : list (Z * op)) : istate :=
@@ -326,11 +340,30 @@ Definition toy_pre (p : option bytes) (l : log) : option bytes :=
 Definition toy_H (b : bytes) : bytes := b.
 
 (* ---------- the script of the correspondence run (vh importx) ---------- *)
+(* a stream that is NOT an export: the exported logs with log ids shifted by dl and transaction ids by dt (references,
+   idempotency keys, dates, hashes unchanged), optionally appended to the export itself.  Used to present Import with
+   NEW_TRANSACTION logs that reuse a reference (C14 on the import path). *)
+Definition shift_tx (d : Z) (t : tx) : tx :=
+  {| t_id := t_id t + d; t_postings := t_postings t; t_meta := t_meta t; t_ts := t_ts t; t_ref := t_ref t; t_ins := t_ins t;
+     t_upd := t_upd t; t_rev := t_rev t; t_pcv := t_pcv t; t_pcev := t_pcev t |}.
+Definition shift_target (d : Z) (t : target) : target := match t with TTx id => TTx (id + d) | TAcc a => TAcc a end.
+Definition shift_payload (d : Z) (p : payload) : payload :=
+  match p with
+  | PNewTx t amd => PNewTx (shift_tx d t) amd
+  | PRevert orig r => PRevert (shift_tx d orig) (shift_tx d r)
+  | PSetMeta t md => PSetMeta (shift_target d t) md
+  | PDelMeta t k => PDelMeta (shift_target d t) k
+  end.
+Definition shift_log (dl dt : Z) (l : log) : log :=
+  {| l_id := l_id l + dl; l_payload := shift_payload dt (l_payload l); l_date := l_date l; l_ik := l_ik l; l_input := l_input l |}.
+
 Inductive action :=
+| AImportShift (with_orig : bool) (now dl dt : Z)
 | AImport (drop : nat) (take : option nat) (now : Z)
 | ASingle (ops : list (Z * op))
 | ABulk (now : Z) (ops : list op)
-| AAtomic (now : Z) (ops : list op).
+| AAtomic (now : Z) (ops : list op)
+| AAtomicUnrepaired (now : Z) (ops : list op).     (* the code before fixes/01-facade-begintx (witnesses only) *)
 
 Inductive aresult :=
 | RImport (e : option ierr) (b : istate)      (* the copy right after the import (for the comparison with the source) *)
@@ -343,6 +376,9 @@ Definition slice {A} (drop : nat) (take : option nat) (l : list A) : list A :=
 
 Definition run_action (f : features) (stream : list (log * bytes)) (b : istate) (a : action) : istate * aresult :=
   match a with
+  | AImportShift with_orig now dl dt =>
+    let shifted := map (fun r => (shift_log dl dt (fst r), snd r)) stream in
+    let '(b', e) := imp_import toy_H toy_pre f now b ((if with_orig then stream else []) ++ shifted) in (b', RImport e b')
   | AImport drop take now =>
     let '(b', e) := imp_import toy_H toy_pre f now b (slice drop take stream) in (b', RImport e b')
   | ASingle ops =>
@@ -351,6 +387,7 @@ Definition run_action (f : features) (stream : list (log * bytes)) (b : istate) 
     (b', RSingle rs)
   | ABulk now ops => let '(b', rs) := w_bulk toy_H toy_pre f now b ops in (b', RBulk rs)
   | AAtomic now ops => let '(b', o) := w_atomic toy_H toy_pre f now b ops in (b', RAtomic o)
+  | AAtomicUnrepaired now ops => let '(b', o) := w_atomic_unrepaired toy_H toy_pre f now b ops in (b', RAtomic o)
   end.
 
 Definition run_script (f : features) (h : list (Z * op)) (sc : list action) : istate * istate * list aresult :=
